@@ -533,6 +533,10 @@ def icmp(m, pred, a, b, w, ins):
             raise KernelViolation('loop-carried state across block iterations: %s at %s' % (sorted(carried), ins.loc()))
         m.loop_window = None
         return 0
+    if isinstance(b, SizeT) and isinstance(a, int):
+        # `i + K < size` (or any constant compared with the symbolic block size): the loop bound is shifted, so some chunk of
+        # the block -- typically the last one -- is not processed
+        raise KernelViolation('block loop bound compares the constant %d with the block size at %s: the loop does not run over the whole block' % (a, ins.loc()))
     if isinstance(a, Ptr) or isinstance(b, Ptr):
         if isinstance(a, Ptr) and isinstance(b, Ptr):
             eq = a.reg == b.reg and a.off == b.off
